@@ -304,16 +304,29 @@ def r1_2(ctx, rc):
                     cn = ctx.H.node_of(F, call)[0]
                     pa = ast.dump(ctx.H.subst(call.args[0], F, cn))
 
+                    # the 'read' records this method makes (directly or
+                    # through a private per-query helper): (call that
+                    # performs it, path expression in the method's terms)
+                    rsites = []
+                    for F2, c0, nm, lst in _api_records(ctx):
+                        if F2 is not F or not (
+                                isinstance(nm, ast.Constant) and
+                                nm.value == 'read' and isinstance(
+                                    lst, ast.List) and lst.elts):
+                            continue
+                        par = prog.parent(c0)
+                        sc = par if isinstance(par, ast.Call) and any(
+                            a is c0 for a in par.args) else c0
+                        rsites.append((sc, lst.elts[0]))
+
                     def recorded_read(x):
-                        if not Q.is_done(x, rec) or not x.call.args:
+                        if x.kind != 'ret' or x.call is None:
                             return False
-                        r = x.call.args[0]
-                        return isinstance(r, ast.Call) and len(r.args) > 1 \
-                            and isinstance(r.args[0], ast.Constant) and \
-                            r.args[0].value == 'read' and isinstance(
-                                r.args[1], ast.List) and r.args[1].elts and \
-                            ast.dump(ctx.H.subst(r.args[1].elts[0], F,
-                                                 x.cn)) == pa
+                        for sc, pe in rsites:
+                            if x.call is sc and ast.dump(ctx.H.subst(
+                                    pe, F, x.cn)) == pa:
+                                return True
+                        return False
                     tgt = [x for x in sg.nodes if x.kind == 'leaf' and
                            x.call is call]
                     w = Q.first_unguarded(sg, [sg.entry], recorded_read,
@@ -508,6 +521,26 @@ def r1_5(ctx, rc):
                 org = ctx.H.origins(st.value.value, x.func, x.cn,
                                     stop=lambda n: n in lookups)
                 return any(o[0] == 'call' and o[1] in lookups for o in org)
+            if attr == 'suboperations':
+                # ... and before the registration, which walks them to
+                # register the nested records
+                w2 = Q.first_unguarded(
+                    sg, starts, copies, lambda x: Q.is_call(x, useq))
+                k2 = '%s: .suboperations copied before registration' % \
+                    F.qualname
+                if w2:
+                    rc.violation(
+                        'reuse-order | %s | copy before register' %
+                        F.qualname,
+                        'use_cached_operation is reached before the cached '
+                        'record\'s suboperations were copied into the '
+                        'operation: the nested records are not registered '
+                        '(their outputs are deleted at commit; a repeated '
+                        'call of a nested operation is not refused)',
+                        sg.nodes[w2[-1]].where(), sg.describe_path(w2),
+                        key=k2)
+                else:
+                    rc.ok({'order': k2}, key=k2)
             w = Q.first_unguarded(
                 sg, starts, lambda x: copies(x) or _is_user(x), ends)
             key = '%s: .%s taken from the cached record' % (F.qualname, attr)
@@ -598,8 +631,12 @@ def r1_10(ctx, rc):
     not aliased with objects the user can still modify (R11.1)."""
     from .c05 import r5_8
     from .c11 import r11_1
+    from . import c18
     r5_8(ctx, rc)
     r11_1(ctx, rc)
+    # the comparisons of R1.4 are JSON equality: its structural rules
+    c18.r18_3(ctx, rc)
+    c18.r18_5(ctx, rc)
 
 
 RULES = [
